@@ -129,6 +129,18 @@ var NumInjections = func() int {
 
 var injectionCount int
 
+var injectionIndex map[string]int
+
+// InjectionIndex is the number of the injection of that name (for InjectAt).
+func InjectionIndex(name string) int {
+	_ = NumInjections
+	i, ok := injectionIndex[name]
+	if !ok {
+		panic("no injection named " + name)
+	}
+	return i
+}
+
 // InjectAt applies injection number idx (any number is reduced modulo the number of
 // injections; idx < 0 draws one at random).
 func InjectAt(r *rng.R, p *Program, idx int) (Injection, bool) {
@@ -197,6 +209,49 @@ func InjectAt(r *rng.R, p *Program, idx int) (Injection, bool) {
 			}
 			ds[0].Fields[0].Label, ds[1].Fields[0].Label = "shared-label", "shared-label"
 			return "the same go.label in two structs", true
+		}},
+		{"file-that-renders-nothing", "A", func() (string, bool) {
+			// a file without a single declaration to generate: nothing but a comment, nothing
+			// but includes (an umbrella file), or a service without functions
+			root := p.Files[len(p.Files)-1]
+			f := &File{Path: path.Join(path.Dir(root.Path), "nothing_here.thrift")}
+			for _, h := range p.Files {
+				if h.Base() == "nothing_here" {
+					return "", false
+				}
+			}
+			what := "an empty file"
+			switch r.Intn(3) {
+			case 1:
+				if len(p.Files) >= 2 {
+					f.Includes = append(f.Includes, p.Files[0])
+					what = "a file with nothing but an include"
+				}
+			case 2:
+				f.Services = append(f.Services, &Service{File: f, Name: "NothingToDo"})
+				what = "a file whose only definition is a service without functions"
+			}
+			p.Files = append(p.Files[:len(p.Files)-1], f, root)
+			root.Includes = append(root.Includes, f)
+			return what + ", included by the root file", true
+		}},
+		{"label-equal-to-the-name-of-a-later-item", "B", func() (string, bool) {
+			// two items of one enum with the same text (the label of one, the name of the other),
+			// labelled item first: the check must not depend on the order
+			for _, f := range p.Files {
+				for _, d := range f.Defs {
+					if d.Kind == Enum && len(d.Items) >= 2 {
+						i := r.Intn(len(d.Items) - 1)
+						j := i + 1 + r.Intn(len(d.Items)-i-1)
+						if d.Items[j].Label != "" {
+							continue
+						}
+						d.Items[i].Label = d.Items[j].Name
+						return fmt.Sprintf("enum %s: item #%d labelled with the name of item #%d", d.Name, i, j), true
+					}
+				}
+			}
+			return "", false
 		}},
 		{"labels-that-need-quoting", "A", func() (string, bool) {
 			// finding D91 (repaired): labels were pasted into Go string literals as they are. An
@@ -520,9 +575,12 @@ func InjectAt(r *rng.R, p *Program, idx int) (Injection, bool) {
 		}},
 		{"file-whose-name-is-no-go-package-name", "B", func() (string, bool) {
 			// findings D71 and D84 (repaired: such files are refused): keywords, main, a dot in the
-			// name, a digit at the start, the blank identifier
+			// name, a digit at the start, the blank identifier; finding D94 (repaired likewise): names
+			// that make <name>.go a test file or a file for one platform
 			f := p.Files[r.Intn(len(p.Files))]
-			name := []string{"range", "type", "func", "select", "go", "main", "x.y", "1st", "_", "v1.2", "init"}[r.Intn(11)]
+			names := []string{"range", "type", "func", "select", "go", "main", "x.y", "1st", "_", "v1.2", "init",
+				"b_test", "x_windows", "model_arm", "types_js", "api_linux_amd64", "svc_wasm", "conn_unix", "dev_android"}
+			name := names[r.Intn(len(names))]
 			for _, h := range p.Files {
 				if h.Base() == name {
 					return "", false
@@ -640,6 +698,12 @@ func InjectAt(r *rng.R, p *Program, idx int) (Injection, bool) {
 		}},
 	}
 	injectionCount = len(list)
+	if injectionIndex == nil {
+		injectionIndex = map[string]int{}
+		for i, c := range list {
+			injectionIndex[c.name] = i
+		}
+	}
 	if idx < -1 {
 		return Injection{}, false
 	}
